@@ -572,6 +572,13 @@ class Interp:
         return None
 
     def call_method(self, recv, name, args, kwargs, node):
+        if isinstance(recv, BuiltinRef) and recv.name == 'dict' and name == 'fromkeys' and 1 <= len(args) <= 2:
+            keys = self.iterate(args[0], node)
+            if keys is not None:
+                d = DictV()
+                for k_ in keys:
+                    d.set(k_, args[1] if len(args) > 1 else Const(None))
+                return d
         if isinstance(recv, Tup):
             if name == 'append' and recv.kind == 'list':
                 recv.items.append(args[0])
@@ -1124,7 +1131,19 @@ class Interp:
             fr = Frame(None, mod, {})
             gk = (mod.name, name)
             self.globals_cache[gk] = Unknown('global %s (in evaluation)' % name)
-            return self.ev(expr, fr)
+            v = self.ev(expr, fr)
+            # module-level statements that fill the object after it was made (TABLE['key'] = ..., TABLE.update(...), LIST.append(...))
+            edits = getattr(mod, 'global_edits', {}).get(name, [])
+            if edits and isinstance(v, (DictV, Tup)):
+                self.globals_cache[gk] = v
+                fr.env[name] = v
+                try:
+                    for st in edits:
+                        self.exec_stmt(st, fr)
+                except Exception:
+                    return Unknown('global %s (module-level edits not followed)' % name)
+                v = fr.env.get(name, v)
+            return v
         return Unknown('resolved %r' % (r,))
 
     def ev_Attribute(self, node, frame):
@@ -1221,6 +1240,8 @@ class Interp:
                     kwargs['**'] = v
             else:
                 kwargs[k.arg] = self.ev(k.value, frame)
+        if isinstance(f, BoundMethod) and isinstance(f.recv, BuiltinRef):
+            return self.call_method(f.recv, f.name, args, kwargs, node)
         if isinstance(f, BoundMethod) and not isinstance(f.recv, (Tup, DictV, Const)):
             r = self.dom.method(f.recv, f.name, args, kwargs, node)
             if r is not None:
